@@ -138,14 +138,15 @@ class Matrix:
             Left hand side vector.
         '''
 
+        nrows, ncols = self.shape
+        if rhs is None:
+            rhs = numpy.zeros(nrows, self.dtype)
+
         # absent an initial guess and constraints we can directly forward to _solver
         if lhs0 is constrain is rconstrain is None:
             return self._solver(rhs, solver, atol=atol, rtol=rtol, **solverargs)
 
         # otherwise we need to do some pre- and post-processing
-        nrows, ncols = self.shape
-        if rhs is None:
-            rhs = numpy.zeros(nrows, self.dtype)
         if lhs0 is None:
             lhs = numpy.zeros((ncols,)+rhs.shape[1:], self.dtype)
         else:
